@@ -5,8 +5,8 @@ import "math/rand/v2"
 // GenPlan draws a seeded graceful-churn group scenario.
 func GenPlan(rng *rand.Rand, seed uint64, vt bool) Plan {
 	p := Plan{
-		Seed: seed, VT: vt, Brokers: 1 + rng.IntN(3), Topics: 1 + rng.IntN(2), Partitions: 2 + rng.IntN(6),
-		Protocol:   []string{"range", "roundrobin", "sticky", "cooperative", "848"}[rng.IntN(5)],
+		Seed: seed, VT: vt, Brokers: 1 + rng.IntN(3), Topics: 1 + rng.IntN(2), Partitions: 1 + rng.IntN(7),
+		Protocol:   []string{"range", "roundrobin", "sticky", "cooperative", "848", "848r"}[rng.IntN(6)],
 		Initial:    1 + rng.IntN(3),
 		ChurnGapMs: []int{30, 80, 200}[rng.IntN(3)],
 		Records:    400 + rng.IntN(1200),
@@ -15,6 +15,7 @@ func GenPlan(rng *rand.Rand, seed uint64, vt bool) Plan {
 		PollRecords:  []int{0, 0, 5, 50}[rng.IntN(4)],
 		AddTopicLate: rng.IntN(4) == 0,
 		Yield:        []int{0, 20, 50}[rng.IntN(3)],
+		SlowRevokeMs: []int{0, 0, 350}[rng.IntN(3)],
 	}
 	n := 2 + rng.IntN(6)
 	steps := []string{"join", "join", "leave", "close", "restart"}
@@ -25,6 +26,22 @@ func GenPlan(rng *rand.Rand, seed uint64, vt bool) Plan {
 		p.Topics = 2
 		p.Churn = append(p.Churn, "addtopic")
 		rng.Shuffle(len(p.Churn), func(i, j int) { p.Churn[i], p.Churn[j] = p.Churn[j], p.Churn[i] })
+	}
+	if rng.IntN(4) == 0 {
+		// tight: more members than partitions (members are reconciled down to nothing) and revoke
+		// callbacks that outlast several heartbeats
+		p.Partitions = 1 + rng.IntN(2)
+		p.Topics = 1
+		p.AddTopicLate = false
+		p.Initial = 1 + rng.IntN(2)
+		p.SlowRevokeMs = 350
+		p.Protocol = []string{"848", "848r", "848r", "cooperative"}[rng.IntN(4)]
+		p.Churn = append([]string{"join", "join"}, p.Churn...)
+		for i, c := range p.Churn {
+			if c == "addtopic" {
+				p.Churn[i] = "join"
+			}
+		}
 	}
 	if vt {
 		p.Yield = 0
